@@ -62,6 +62,60 @@ def write_report(prop, i, n):
     return p
 
 
+def thorough_extras(prop, repo, ctx):
+    """Thorough tier only, never a verdict about the repository: (a) the analyser is validated against its
+    corpus (variants of the CURRENT tree with one instance broken must be reported by this property's rules;
+    behaviour-preserving edits must stay silent); (b) the library is re-extracted under cfg(test) to record how
+    the configuration analysed (what users get) differs from the one the unit tests run."""
+    import multiprocessing
+    sys.path.insert(0, os.path.join(VERIF, 'tools'))
+    sys.path.insert(0, os.path.join(VERIF, 'mutants'))
+    out = {}
+    os.environ['KCHECK_NO_SELFCHECK'] = '1'
+    try:
+        import corpus
+        import negatives
+        import mutants as mtool
+        jobs = [(m, [prop]) for m in corpus.MUTANTS if any(e[0] == prop for e in m['expect'])]
+        njobs = [(m, [prop]) for m in negatives.NEGATIVES]
+        with multiprocessing.Pool(12) as pool:
+            res = pool.map(mtool.run_one, jobs + njobs)
+        caught, missed, skipped, noisy = [], [], [], []
+        byname = {m['name']: m for m in corpus.MUTANTS}
+        for (name, status, r) in res[:len(jobs)]:
+            if status != 'ran':
+                skipped.append(name)
+                continue
+            want = [e[1] for e in byname[name]['expect'] if e[0] == prop]
+            v = r.get(prop, {}).get('violations', [])
+            if all(any(k.startswith(w) for k in v) for w in want):
+                caught.append(name)
+            else:
+                missed.append(name)
+        for (name, status, r) in res[len(jobs):]:
+            if status == 'ran' and (r.get(prop, {}).get('violations') or r.get(prop, {}).get('engine_errors')):
+                noisy.append(name)
+        out['selfcheck'] = {'variants': len(jobs), 'reported': len(caught), 'missed': missed, 'skipped': skipped,
+                            'behaviour_preserving_edits': len(njobs), 'false_alarms_on_them': noisy}
+    finally:
+        os.environ.pop('KCHECK_NO_SELFCHECK', None)
+    try:
+        tfacts, tmeta = extract.extract(repo, cfg_test=True)
+        lib = ctx.facts
+        diff = {}
+        for name, c in lib['consts'].items():
+            tc = tfacts['consts'].get(name)
+            if tc is not None and tc.get('val') != c.get('val'):
+                diff[name] = {'library': c.get('val'), 'cfg_test': tc.get('val')}
+        only_test = sorted(k for k in tfacts['bodies'] if k not in lib['bodies'])
+        missing = sorted(k for k in lib['bodies'] if k not in tfacts['bodies'])
+        out['cfg_test'] = {'constants_that_differ': diff, 'bodies_only_under_cfg_test': len(only_test),
+                           'library_bodies_missing_under_cfg_test': missing[:10]}
+    except Exception as e:
+        out['cfg_test'] = {'error': str(e)[-400:]}
+    return out
+
+
 def run_property(prop, tier, repo, seed, write=True, quiet=False):
     t0 = time.time()
     mod = importlib.import_module('rules.' + prop.lower())
@@ -90,6 +144,13 @@ def run_property(prop, tier, repo, seed, write=True, quiet=False):
         engine_errors.append('%s: %s' % (type(e).__name__, e))
     except Exception:
         engine_errors.append('internal error:\n' + traceback.format_exc())
+
+    thorough_extra = {}
+    if tier == 'thorough' and ctx is not None and not engine_errors and os.environ.get('KCHECK_NO_SELFCHECK') != '1':
+        try:
+            thorough_extra = thorough_extras(prop, repo, ctx)
+        except Exception:
+            thorough_extra = {'error': traceback.format_exc()[-1500:]}
 
     # floors
     floors = dict(getattr(mod, 'FLOORS', {}))
@@ -162,6 +223,7 @@ def run_property(prop, tier, repo, seed, write=True, quiet=False):
             'explorations': ctx.stats if ctx else {},
             'extraction': meta,
             'known_findings_listed': sorted(known_keys),
+            'thorough_extras': thorough_extra,
             'exhaustive': False,
         },
         'assumptions': getattr(mod, 'ASSUMPTIONS', []) + [
@@ -185,6 +247,11 @@ def run_property(prop, tier, repo, seed, write=True, quiet=False):
     for r in sorted(counts):
         bad = sum(1 for i in insts if i['rule'] == r and not i['ok'])
         print('  %-8s %3d instances%s' % (r, counts[r], '  (%d VIOLATED)' % bad if bad else ''))
+    if thorough_extra.get('selfcheck'):
+        sc = thorough_extra['selfcheck']
+        print('  analyser self-check: %d/%d corpus variants reported, %d/%d behaviour-preserving edits silent%s'
+              % (sc['reported'], sc['variants'], sc['behaviour_preserving_edits'] - len(sc['false_alarms_on_them']),
+                 sc['behaviour_preserving_edits'], ('; missed: %s' % sc['missed']) if sc['missed'] else ''))
     for l in out_lines:
         print(l)
     return 1 if (new_viol or engine_errors) else 0
